@@ -120,6 +120,15 @@ def index_snapshots(rr, upto=None):
     return snaps
 
 
+def old_format_index(pos, items):
+    """the index file as FileStorage versions before fsIndex.save wrote it: ONE pickle of a dict
+    {'index': plain dict oid -> pos, 'pos': pos, 'oid': max oid, 'vindex': {}} (what _restore_index still
+    accepts and converts)"""
+    import pickle
+    return pickle.dumps({'index': {L.p64(k): v for k, v in items}, 'pos': pos,
+                         'oid': L.p64(max([k for k, _ in items] or [0])), 'vindex': {}}, protocol=2)
+
+
 def load_index_bytes(b, tmp):
     """(pos, [(oid, off)]) of an index file's bytes via the real fsIndex.load, or None"""
     from ZODB.fsIndex import fsIndex
@@ -194,6 +203,7 @@ def open_dump(wd, files, oids, tids, read_only=False, writes=False):
     program through the opened storage and dump again).  Returns dict or {'error': …}"""
     from ZODB.FileStorage import FileStorage
     L.write_dir(wd, files)
+    before = L.read_dir(wd) if read_only else None
     try:
         fs = FileStorage(os.path.join(wd, 'Data.fs'), read_only=read_only)
     except Exception as e:
@@ -219,6 +229,9 @@ def open_dump(wd, files, oids, tids, read_only=False, writes=False):
     if writes and not read_only:
         final = L.read_dir(wd).get('Data.fs', b'')
         d['after_writes:datafs'] = [len(final), hashlib.sha1(final).hexdigest()]
+    if read_only:
+        after_dir = L.read_dir(wd)
+        internal['ro_changed'] = sorted(k for k in set(before) | set(after_dir) if before.get(k) != after_dir.get(k))
     return dict(dump=d, internal=internal)
 
 
@@ -452,6 +465,12 @@ def part_a(ck, hist, tag, pack=None, model=True):
         for si, (sidx, sbytes, sret) in enumerate(snaps):
             if sidx <= evidx:
                 variants.append(('index%d' % si, {'Data.fs.index': sbytes}, nret - sret, si))
+        for si, (sidx, sbytes, sret) in enumerate(snaps):
+            if sidx <= evidx and (si == len(snaps) - 1 or ck.rng.random() < 0.4):
+                li = load_index_bytes(sbytes, ck.tmp)
+                if li is not None:
+                    variants.append(('oldformat%d' % si, {'Data.fs.index': old_format_index(li[0], li[1])},
+                                     nret - sret, si))
         if snaps:
             # truncations of the newest applicable index (quick: 64 lengths), on final/packed and one torn target
             app = [s for s in snaps if s[0] <= evidx]
@@ -465,10 +484,14 @@ def part_a(ck, hist, tag, pack=None, model=True):
                 j2 = dict(JUNK)
                 j2['Data.fs.index'] = app[-1][1]
                 variants.append(('leftovers+index', j2, nret - app[-1][2], len(app) - 1))
-        for vname, extra, age, si in variants:
+        variants = [v + (None,) for v in variants]
+        variants += [(v[0] + '-ro', v[1], v[2], v[3], True) for v in variants if v[0].startswith('oldformat')]
+        for vname, extra, age, si, force_ro in variants:
             files = {'Data.fs': data}
             files.update(extra)
             ro = ck.rng.random() < 0.25 and not vname.startswith('leftovers')
+            if vname.startswith('oldformat'):
+                ro = bool(force_ro)
             wr = not vname.startswith('trunc') or vname in ('trunc0', 'trunc1')
             want = base if not ro else ro_base
             got = open_dump(wd, files, oids, tids, read_only=ro, writes=wr)
@@ -481,6 +504,10 @@ def part_a(ck, hist, tag, pack=None, model=True):
             ck.count('variant:' + vname.rstrip('0123456789'))
             if 'internal' in got:
                 ck.count('used_index=%s' % got['internal']['used'])
+            if ro and got.get('internal', {}).get('ro_changed'):
+                viol.append(('C09:ro-mutated:open', 'read-only open of %s with %s changed files in the directory: %s'
+                             % (name, vname, got['internal']['ro_changed']),
+                             dict(history=hist, pack=pack, target=name, variant=vname)))
             sig = what = None
             stale = False
             if packed and si is not None:
@@ -503,6 +530,8 @@ def part_a(ck, hist, tag, pack=None, model=True):
                         sig = STALE_SIG
                     elif packed and si is not None:
                         sig = 'C09:unaligned-pre-pack-index-accepted'
+                    elif vname.startswith('oldformat'):
+                        sig = 'C09:old-format-index-changes-state'
                     elif vname.startswith('trunc'):
                         sig = 'C09:truncated-index-changes-state'
                     elif vname.startswith('leftovers'):
@@ -516,7 +545,7 @@ def part_a(ck, hist, tag, pack=None, model=True):
                 viol.append((sig, what, dict(history=hist, pack=pack, target=name, variant=vname)))
             # model: same bytes, same index contents
             if model and si is not None and 'internal' in got and (cc is not None or name in ('final', 'packed')) \
-                    and not vname.startswith('leftovers'):
+                    and not vname.startswith('leftovers') and not vname.startswith('oldformat'):
                 if si not in slot_of:
                     li = load_index_bytes(snaps[si][1], ck.tmp)
                     if li is None:
